@@ -20,6 +20,7 @@ package yang
 
 import (
 	"fmt"
+	"sort"
 	"sync"
 )
 
@@ -308,6 +309,23 @@ func (ms *Modules) FindModuleByNamespace(ns string) (*Module, error) {
 	return found, nil
 }
 
+// sortedModules returns the modules of m in the order of their keys, so that
+// nothing computed from them depends on Go's map iteration order.  A module
+// that has a revision is filed under "name" and "name@revision"; it is
+// returned for each of its keys, the bare name first.
+func sortedModules(m map[string]*Module) []*Module {
+	keys := make([]string, 0, len(m))
+	for k := range m {
+		keys = append(keys, k)
+	}
+	sort.Strings(keys)
+	mods := make([]*Module, len(keys))
+	for i, k := range keys {
+		mods[i] = m[k]
+	}
+	return mods
+}
+
 // process satisfies all include and import statements and verifies that all
 // link ref paths reference a known node.  If an import or include references
 // a [sub]module that is not already known, Process will search for a .yang
@@ -323,9 +341,7 @@ func (ms *Modules) process() []error {
 	// Collect the list of modules we know about now so when we range
 	// below we don't pick up new modules.  We assume the user tells
 	// us explicitly which modules they are interested in.
-	for _, m := range ms.Modules {
-		mods = append(mods, m)
-	}
+	mods = append(mods, sortedModules(ms.Modules)...)
 	for _, m := range mods {
 		if err := ms.include(m); err != nil {
 			errs = append(errs, err)
@@ -386,10 +402,11 @@ func (ms *Modules) Process() []error {
 		return errorSort(errs)
 	}
 
-	for _, m := range ms.Modules {
+	modules, submodules := sortedModules(ms.Modules), sortedModules(ms.SubModules)
+	for _, m := range modules {
 		errs = append(errs, ToEntry(m).GetErrors()...)
 	}
-	for _, m := range ms.SubModules {
+	for _, m := range submodules {
 		errs = append(errs, ToEntry(m).GetErrors()...)
 	}
 
@@ -400,13 +417,11 @@ func (ms *Modules) Process() []error {
 	// Now handle all the augments.  We don't have a good way to know
 	// what order to process them in, so repeat until no progress is made
 
-	mods := make([]*Module, 0, len(ms.Modules)+len(ms.SubModules))
-	for _, m := range ms.Modules {
-		mods = append(mods, m)
-	}
-	for _, m := range ms.SubModules {
-		mods = append(mods, m)
-	}
+	// The order in which modules are tried decides which of two conflicting
+	// augments is the one reported, so it must not be the map order.
+	mods := make([]*Module, 0, len(modules)+len(submodules))
+	mods = append(mods, modules...)
+	mods = append(mods, submodules...)
 	for len(mods) > 0 {
 		var processed int
 		for i := 0; i < len(mods); {
@@ -427,10 +442,10 @@ func (ms *Modules) Process() []error {
 
 	// Now fix up all the choice statements to add in the missing case
 	// statements.
-	for _, m := range ms.Modules {
+	for _, m := range modules {
 		ToEntry(m).FixChoice()
 	}
-	for _, m := range ms.SubModules {
+	for _, m := range submodules {
 		ToEntry(m).FixChoice()
 	}
 
@@ -453,10 +468,10 @@ func (ms *Modules) Process() []error {
 	// Collect the errors of all modules, not only of those with
 	// remaining augments: merging an augment records conflicts on the
 	// target, which may be in any module.
-	for _, m := range ms.Modules {
+	for _, m := range modules {
 		errs = append(errs, ToEntry(m).GetErrors()...)
 	}
-	for _, m := range ms.SubModules {
+	for _, m := range submodules {
 		errs = append(errs, ToEntry(m).GetErrors()...)
 	}
 
@@ -465,8 +480,12 @@ func (ms *Modules) Process() []error {
 	// rather we can just walk all modules and submodules *after* entries
 	// are resolved. This means we do not need to concern ourselves that
 	// an entry does not exist.
+	//
+	// Deviations of different modules may name the same node, so the modules
+	// are visited in the order of their names; of several revisions of one
+	// module the one filed under the bare name (the most recent) is applied.
 	dvP := map[string]bool{} // cache the modules we've handled since we have both modname and modname@revision-date
-	for _, devmods := range []map[string]*Module{ms.Modules, ms.SubModules} {
+	for _, devmods := range [][]*Module{modules, submodules} {
 		for _, m := range devmods {
 			e := ToEntry(m)
 			if !dvP[e.Name] {
